@@ -8,6 +8,7 @@ func init() {
 		}
 		return Scenario{Name: "C03/bfs-" + cfg, Build: sched, Pkg: "internal", Test: "TestVerif_C03", Params: p, Shards: shards, BudgetS: budget}
 	}
+	load := Scenario{Name: "C03/after-load", Build: plain, Pkg: "internal", Test: "TestVerif_C03Load", Shards: 4, BudgetS: 60}
 	register(&Check{
 		ID: "C03", Level: "model_checking", Engine: "E2-BFS", DesignRef: "DESIGN.md §4 C03, §3.3",
 		Technique: "explicit-state breadth-first search with a virtual clock over TTL / read-time / tick / stall patterns on the real instrumented Store (big steps); every hit compared with the reference deadline",
@@ -16,10 +17,10 @@ func init() {
 		Rule:      "BFS over action lists (B/F/M big steps, T tick, A absolute advance, D deadline-relative advance); successor = fresh store + replay + 1 action; canonical state dedup; outcome = sequence of (read kind, late?) observations",
 		Assume:    []string{"virtual clock: time.Now/Since/Ticker are the vtime shims", "a TTL-less Set writes a value the property does not constrain"},
 		Quick: []Scenario{
-			mk("edges", 16, "7", 60), mk("stall", 16, "7", 60), mk("rearm", 8, "8", 60), mk("huge", 4, "6", 60), mk("loading", 8, "7", 60),
+			mk("edges", 16, "7", 60), mk("stall", 16, "7", 60), mk("rearm", 8, "8", 60), mk("huge", 4, "6", 60), mk("loading", 8, "7", 60), load,
 		},
 		Thorough: []Scenario{
-			mk("edges", 16, "10", 600), mk("stall", 16, "10", 600), mk("rearm", 16, "11", 600), mk("huge", 8, "8", 600), mk("loading", 16, "10", 600),
+			mk("edges", 16, "10", 600), mk("stall", 16, "10", 600), mk("rearm", 16, "11", 600), mk("huge", 8, "8", 600), mk("loading", 16, "10", 600), load,
 		},
 	})
 }
